@@ -322,12 +322,20 @@ def symlink (s : Store) (v : View) (oldname newname : Bytes) : Store × Out :=
   if !dirPerm s n.parent omWrite v then (s, .err .EACCES) else
   ((createSymlink s v n.parent (partOf n.pi) (clean .linux oldname)).1, .ok .unit)
 
+/-- dirNode.restrictedDeletion: the sticky bit of the directory `par` forbids the caller to remove or rename the entry
+    `c`: only the owner of the directory, the owner of the entry or an administrator may -/
+def restrictedDeletion (s : Store) (v : View) (par c : Ino) : Bool :=
+  match s.get par, s.get c with
+  | some np, some nc => np.meta.perm &&& 0o1000 != 0 && !v.admin && np.meta.uid != v.uid && nc.meta.uid != v.uid
+  | _, _ => false
+
 def remove (s : Store) (v : View) (name : Bytes) : Store × Out :=
   let r := searchNode s v name .lstat
   match r.err, r.child with
   | .exists, some c =>
     if c == r.parent then (s, .err .EINVAL) else       -- the root of the view (was: self-deadlock)
     if !dirPerm s r.parent omWrite v then (s, .err .EACCES) else
+    if restrictedDeletion s v r.parent c then (s, .err .EPERM) else
     match s.get c with
     | some (.dir _ ch) =>
       if (alKeys ch).length != 0 then (s, .err .ENOTEMPTY) else
@@ -375,6 +383,7 @@ def removeAll (s : Store) (v : View) (path : Bytes) : Store × Out :=
     | some e => (s1, .err e)
     | none =>
       if !dirPerm s1 r.parent omWrite v then (s1, .err .EACCES) else
+      if restrictedDeletion s1 v r.parent c then (s1, .err .EPERM) else
       (deleteNode (removeChild s1 r.parent (partOf r.pi)) c, .ok .unit)
   | e, _ => (s, .err e.toErr)
 
@@ -390,6 +399,9 @@ def rename (s : Store) (v : View) (oldpath newpath : Bytes) : Store × Out :=
   match o.child with
   | none => (s, .panic)
   | some oc =>
+    -- sticky bit: an entry of another user can be neither moved away nor replaced
+    if restrictedDeletion s v o.parent oc then (s, .err .EPERM) else
+    if n.err == .exists && (match n.child with | some nc => restrictedDeletion s v n.parent nc | none => false) then (s, .err .EPERM) else
     let move (s : Store) : Store × Out :=
       (removeChild (addChild s n.parent (partOf n.pi) oc) o.parent (partOf o.pi), .ok .unit)
     match s.get oc with
